@@ -827,18 +827,36 @@ def gen_o_hist_iso(rng, n):
                 st["i"] = rng.randrange(max(cnt, 1))
             steps.append(st)
         steps.append({"op": "query"})
+        for st in steps:
+            if rng.random() < 0.35:
+                st["other"] = dict(_hi_unit(rng, dim), by=_hi_unit(rng, dim))
         yield {"dim": dim, "cnt": cnt, "units": [_hi_unit(rng, dim) for _ in range(max(cnt, 1))], "steps": steps,
                "what": rng.choice(["isometry", "isometry", "hyperplane"])}
 
 
-def _fix_report(iso):
+def _fix_arrays(iso, spoil=False):
+    """the arrays behind fixed_point / fixed_point_pair / axis; with spoil the returned arrays are overwritten (G2)"""
+    n = np.array(iso.proj_data).shape[-1]
+    outs = []
+    for obj in (iso.fixed_point(), iso.fixed_point_pair(), iso.axis()):
+        a = obj.proj_data
+        outs.append(np.real(np.array(a)).astype(float).copy())
+        if spoil and isinstance(a, np.ndarray) and a.flags.writeable:
+            a[...] = np.nan
+    return outs[0].reshape((-1, n)), outs[1].reshape((-1, 2, n)), outs[2].reshape((-1, 2, n))
+
+
+def _rays_equal(a, b, tol=1e-6):
+    a, b = a.reshape((-1, a.shape[-1])), b.reshape((-1, b.shape[-1]))
+    return a.shape == b.shape and all(G.proj_equal(x, y, tol) for x, y in zip(a, b))
+
+
+def _fix_report(iso, arrays=None):
     """what the library reports for every unit of a (possibly composite) isometry, judged against the CURRENT matrices"""
     mats = np.array(iso.proj_data, dtype=float)
     n = mats.shape[-1]
     flat = mats.reshape((-1, n, n))
-    fp = np.real(np.array(iso.fixed_point().proj_data)).reshape((-1, n))
-    pair = np.real(np.array(iso.fixed_point_pair().proj_data)).reshape((-1, 2, n))
-    ax = np.real(np.array(iso.axis().proj_data)).reshape((-1, 2, n))
+    fp, pair, ax = arrays if arrays is not None else _fix_arrays(iso)
     out = []
     for j, M in enumerate(flat):
         ev = np.linalg.eigvals(M)
@@ -876,7 +894,12 @@ def run_o_hist_iso(inp):
                 if st["op"] == "set":
                     Hp.set(np.array((g @ Hp).proj_data, dtype=float).copy())
             elif st["op"] == "query":
-                R = np.array(Hp.reflection_across().proj_data, dtype=float)
+                Robj = Hp.reflection_across()
+                R = np.array(Robj.proj_data, dtype=float).copy()
+                if isinstance(Robj.proj_data, np.ndarray) and Robj.proj_data.flags.writeable:
+                    Robj.proj_data[...] = np.nan          # G2: overwrite what was handed out, then ask again
+                R_again = np.array(Hp.reflection_across().proj_data, dtype=float)
+                R_fresh = np.array(H.Hyperplane(np.array(Hp.proj_data, dtype=float).copy()).reflection_across().proj_data, dtype=float)   # G1
                 data = np.array(Hp.proj_data, dtype=float)
                 sc = float(max(1.0, np.abs(R).max()))
                 try:
@@ -886,13 +909,28 @@ def run_o_hist_iso(inp):
                     # the acceptance threshold 1e-8 is absolute: a wall far from the origin has a reflection with large entries
                     rt = sc > 20
                 log.append({"k": k, "op": "query", "wall_fixed": float(np.abs(data[1:] @ R - data[1:]).max() / (sc * max(1.0, np.abs(data).max()))),
-                            "normal_neg": float(np.abs(data[0] @ R + data[0]).max() / sc), "roundtrip": rt, "scale": sc})
+                            "normal_neg": float(np.abs(data[0] @ R + data[0]).max() / sc), "roundtrip": rt, "scale": sc,
+                            "stable": bool(np.array_equal(R, R_again)), "fresh_same": bool(np.abs(R - R_fresh).max() <= 1e-7 * sc * sc)})
         return {"log": log}
     iso = H.Isometry(mats.copy() if cnt else mats[0].copy())
     for k, st in enumerate(inp["steps"]):
         op = st["op"]
+        oth = st.get("other")
+        if oth is not None:
+            # G3: an unrelated isometry queried, moved and queried again in between
+            B = H.Isometry(_hi_mat(dim, oth))
+            B.fixed_point_pair()
+            B2 = H.Isometry(_hi_mat(dim, oth["by"])) @ B
+            log.append({"k": k, "op": "other", "units": _fix_report(B2), "fresh_same": True, "stable": True})
         if op == "query":
-            log.append({"k": k, "op": op, "units": _fix_report(iso)})
+            arr1 = _fix_arrays(iso, spoil=True)                                   # G2: returned arrays overwritten ...
+            arr2 = _fix_arrays(iso)                                               # ... and the query repeated
+            arr3 = _fix_arrays(H.Isometry(np.array(iso.proj_data, dtype=float).copy()))   # G1: fresh object, same data
+            mats_now = np.array(iso.proj_data, dtype=float)
+            clear = all(not (1 + 1e-4 < np.max(np.abs(np.linalg.eigvals(M))) <= 1.05) for M in mats_now.reshape((-1,) + mats_now.shape[-2:]))
+            log.append({"k": k, "op": op, "units": _fix_report(iso, arr1),
+                        "fresh_same": bool((not clear) or (_rays_equal(arr1[0], arr3[0]) and _rays_equal(arr1[1][:, 0], arr3[1][:, 0]))),
+                        "stable": bool(all(np.array_equal(x, y) for x, y in zip(arr1, arr2)))})
         elif op == "left":
             iso = H.Isometry(_hi_mat(dim, st["u"])) @ iso
         elif op == "right":
@@ -922,9 +960,12 @@ def judge_o_hist_iso(inp, obs, lr):
         before = [o for o in ops[:e["k"]] if o != "query"][-2:]
         t = dict(tags, after=before, queried_before=ops[:e["k"]].count("query") > 0)
         if inp["what"] == "hyperplane":
-            if not (e["wall_fixed"] <= 1e-6 and e["normal_neg"] <= 1e-6 and e["roundtrip"]):
+            if not (e["wall_fixed"] <= 1e-6 and e["normal_neg"] <= 1e-6 and e["roundtrip"] and e["stable"] and e["fresh_same"]):
                 return {"expected": "reflection across the CURRENT wall; from_reflection gives it back", "observed": e, "tags": t}
             continue
+        if not (e.get("fresh_same", True) and e.get("stable", True)):
+            return {"expected": "same fixed points as a fresh isometry with the same matrix; overwriting returned arrays changes nothing",
+                    "observed": {"fresh_same": e.get("fresh_same"), "stable": e.get("stable")}, "tags": dict(t, check="fresh/stable")}
         for u in e["units"]:
             # products of random elements are almost surely loxodromic or elliptic; the degenerate-eigenspace cases need dim >= 3 rotations
             if u["unclear"] or u["scale"] > 1e4:
